@@ -36,6 +36,22 @@ def denotesList (s : Bytes) (l : List Nat) : Prop :=
 def denotesBytes (b : Bytes) (l : List Nat) : Prop :=
   (∃ s, b = 34 :: (s ++ [34]) ∧ denotesList s l) ∨ denotesList b l
 
+/-- what a driver value denotes as an int64 for the SQL scanners: an integer is itself, decimal text its
+    value, NULL is 0; floats, booleans and times denote no integer -/
+def sqlDenotes : SqlVal → Int → Prop
+  | .i32 x, ts => ts = x
+  | .i64 x, ts => ts = x
+  | .int x, ts => ts = x
+  | .u32 x, ts => ts = (x : Int)
+  | .u64 x, ts => ts = (x : Int)
+  | .uint x, ts => ts = (x : Int)
+  | .bytes s, ts => denotesCore s ts
+  | .str s, ts => denotesCore s ts
+  | .null, ts => ts = 0
+  | .f64 _, _ => False
+  | .bool _, _ => False
+  | .time _, _ => False
+
 /-- digits of an arbitrary base (`0-9a-zA-Z` below the base) and their value -/
 def BaseDigits (base : Nat) (s : Bytes) : Prop := ∀ c ∈ s, ∃ d, digitVal c = some d ∧ d < base
 
